@@ -346,6 +346,38 @@ def rule_utf8_writers(prog, res):
                 v = fa.rv_term(s["rv"], (b, i))
                 errs.add(v.args[3][0].args[2])
     res.ob("X-utf8", "1029 decode | invalid UTF-8 is reported as InvalidUtf8String", "InvalidUtf8String" in errs, str(sorted(errs)), f.loc)
+    # exactness: text is rejected ONLY when the body is too short or the bytes are not UTF-8 (any other rejection would
+    # refuse text the encoder can produce)
+    from algebra import fact_of_guard as _fg
+    extra_rej = []
+    accept = set()
+    for b in sorted(f.reachable()):
+        for i, s_ in enumerate(f.blocks[b]["stmts"]):
+            if s_["k"] == "assign" and s_["place"]["local"] == 0 and s_["rv"]["k"] == "aggregate" and s_["rv"].get("vname") == "Ok":
+                accept |= {(g[0], g[1], g[2]) for g in fa.guards(b)}
+    for b in sorted(f.reachable()):
+        for i, s_ in enumerate(f.blocks[b]["stmts"]):
+            if s_["k"] == "assign" and s_["place"]["local"] == 0 and s_["rv"]["k"] == "aggregate" and s_["rv"].get("vname") == "Err":
+                v = fa.rv_term(s_["rv"], (b, i))
+                variant = v.args[3][0].args[2]
+                gs = [g for g in fa.guards(b) if g[4] == "switch"]
+                reason = None
+                for g in gs:
+                    fc = _fg(g)
+                    if fc[0] == "Lt" and fc[1].op == "len" and variant == "BufferOverflow":
+                        reason = "short"
+                    if fc[0] == "discr" and fc[1].op == "call" and fc[1].args[0] == "core::str::from_utf8" and variant == "InvalidUtf8String" \
+                            and ((fc[2] == "eq" and fc[3] == 1) or (fc[2] == "ne" and 0 in fc[3])):
+                        reason = "utf8"
+                # every *other* branch fact on this path must also hold on an accepting path (i.e. it is not a rejection condition)
+                others = [g for g in gs if not (_fg(g)[0] == "Lt" and _fg(g)[1].op == "len") and not (_fg(g)[0] == "discr" and _fg(g)[1].op == "call"
+                                                                                               and _fg(g)[1].args[0] == "core::str::from_utf8")]
+                others = [g for g in others if not (g[0].op == "discr" and g[0].args[0].op == "call" and g[0].args[0].args[0].endswith("Try>::branch"))]
+                # facts shared with the accepting path are not rejection conditions
+                others = [g for g in others if (g[0], g[1], g[2]) not in accept]
+                if reason is None or others:
+                    extra_rej.append("%s under %s" % (variant, [show(g[0], fa.names)[:80] for g in gs if g in others or reason is None]))
+    res.ob("X-utf8", "1029 decode | text is rejected only for a short body or invalid UTF-8 (no other condition)", not extra_rej, "; ".join(extra_rej)[:300], f.loc)
 
 
 def rule_limits(prog, res):
@@ -411,6 +443,29 @@ def rule_limits(prog, res):
                 v = fa.rv_term(s["rv"], (b, i))
                 errs.add(v.args[3][0].args[2])
     res.ob("X-lim", "1029 encode | over-long text is refused with an error", bool(errs), str(sorted(errs)), f.loc)
+    # exactness of the refusal: an Err aggregate is returned only under a count limit test
+    nerr = 0
+    okex = True
+    for b in sorted(f.reachable()):
+        for i, s_ in enumerate(f.blocks[b]["stmts"]):
+            if s_["k"] == "assign" and s_["place"]["local"] == 0 and s_["rv"]["k"] == "aggregate" and s_["rv"].get("vname") == "Err":
+                nerr += 1
+                # the error block's predecessors are the `>` tests on the two counts (the || lowering gives two predecessors)
+                for pb in f.pred(b):
+                    t = f.term(pb)
+                    while t["k"] == "goto":
+                        pp = f.pred(pb)
+                        if len(pp) != 1:
+                            break
+                        pb = pp[0]
+                        t = f.term(pb)
+                    if t["k"] != "switch":
+                        okex = False
+                        continue
+                    c = fa.op_term(t["discr"], (pb, len(f.blocks[pb]["stmts"])))
+                    if not (c.op == "bin" and c.args[0] in ("Gt", "Ge", "Lt", "Le") and (is_const(c.args[2]) or is_const(c.args[1]))):
+                        okex = False
+    res.ob("X-lim", "1029 encode | the only refusal is the pair of count limits", okex and nerr == 1, "error sites: %d" % nerr, f.loc)
 
 
 def rule_witness_privacy(prog, res):
